@@ -28,8 +28,9 @@ type Item struct {
 	Raw     []byte // for torn: the offending bytes
 }
 
-// RTSP is an RTSP-over-TCP client connection.
+// RTSP is an RTSP client connection: over TCP, or over WebSocket (one RTSP message per WebSocket message) when ws is set.
 type RTSP struct {
+	ws      *WS
 	C       net.Conn
 	br      *bufio.Reader
 	CSeq    int
@@ -47,6 +48,19 @@ func DialRTSP(addr string) (*RTSP, error) {
 		return nil, err
 	}
 	return &RTSP{C: c, br: bufio.NewReaderSize(c, 256<<10)}, nil
+}
+
+// DialRTSPWS opens an RTSP-over-WebSocket connection (sub-protocol "rtsp") on the given URL path.
+func DialRTSPWS(addr, path string) (*RTSP, error) {
+	w, err := DialWS(addr, path, "rtsp")
+	if err != nil {
+		return nil, err
+	}
+	if w.Status != 101 {
+		w.Close()
+		return nil, fmt.Errorf("websocket upgrade refused: %d", w.Status)
+	}
+	return &RTSP{ws: w, C: w.C}, nil
 }
 
 // Close closes the connection.
@@ -74,12 +88,28 @@ func (r *RTSP) Send(method, url string, hdr map[string]string, body string) (int
 	}
 	b.WriteString("\r\n")
 	b.WriteString(body)
+	if r.ws != nil {
+		return r.CSeq, r.ws.WriteMessage(2, []byte(b.String()))
+	}
 	_, err := r.C.Write([]byte(b.String()))
 	return r.CSeq, err
 }
 
 // Read reads exactly one item, strictly: at an item boundary the next byte is '$' or the 'R' of "RTSP/1.0 ".
 func (r *RTSP) Read(timeout time.Duration) Item {
+	if r.ws != nil { // every WebSocket message must be exactly one response or one frame
+		op, p, err := r.ws.ReadMessage(timeout)
+		if err != nil {
+			if ne, ok := err.(net.Error); ok && ne.Timeout() {
+				return Item{Kind: "timeout"}
+			}
+			return Item{Kind: "eof"}
+		}
+		if op == 8 {
+			return Item{Kind: "eof"}
+		}
+		return ParseRTSPMessage(p)
+	}
 	r.C.SetReadDeadline(time.Now().Add(timeout))
 	first, err := r.br.Peek(1)
 	if err != nil {
